@@ -171,8 +171,9 @@ def run_public(case, clauses=None):
     script = case["script"]
     problems = []
     tmo = 1.0 if case.get("lose_first") else 4.0
+    extra = {"engine_id": b""} if case.get("empty_eid_arg") else {}  # discovery asked for with an explicit empty engine id
     if case["driver"] == "sync":
-        w = drivers.SyncWorld(cfg, agent, timeout=tmo, max_repetitions=4)
+        w = drivers.SyncWorld(cfg, agent, timeout=tmo, max_repetitions=4, **extra)
         try:
             s = w.session
             o = drivers.call(s.__enter__)
@@ -218,7 +219,7 @@ def run_public(case, clauses=None):
                     await s.refresh()
             holder["eid"] = s.get_engine_id()
 
-        o, reqs, errs = drivers.run_async(cfg, agent, client, timeout=tmo, max_repetitions=4)
+        o, reqs, errs = drivers.run_async(cfg, agent, client, timeout=tmo, max_repetitions=4, **extra)
         if o.kind != "ok":
             problems.append(("usm", "async script failed: %r" % (o.brief(),)))
         got_eid = drivers.Outcome("ok", holder.get("eid"))
@@ -351,6 +352,9 @@ def gen_public(tier):
             cfg = Cfg("v3", auth=a, priv=p, discover=True)
             yield {"driver": driver, "cfg": cfg.describe(), "clock": 1, "script": ["get", "get"], "lose_first": True}
             yield {"driver": driver, "cfg": cfg.describe(), "clock": 0, "script": ["get", "refresh", "get"], "ctx_other": True}
+            for kt in (0, 1):
+                c2 = Cfg("v3", auth=a, priv=p, discover=True, key_type=kt)
+                yield {"driver": driver, "cfg": c2.describe(), "clock": 0, "script": ["get", "get_many", "get"], "empty_eid_arg": True}
         # one User object shared by sessions to agents with different engine ids
         for (a, p), (kt, pkt) in itertools.product(((2, 0), (1, 1), (2, 2)), ((0, 0), (1, 1), (0, 1), (1, 0))):
             if not p and kt != pkt:
